@@ -2,6 +2,7 @@
 import FunsorVerif.Core.Sexp
 import FunsorVerif.Model.C20.Heap
 import FunsorVerif.Model.C20.Review
+import FunsorVerif.Model.C20.Obj
 namespace FV.Drv.C20
 open FV FV.C20 FV.Gen.C20
 
@@ -32,7 +33,44 @@ def siteSexp (w : WriteSite) : Sexp :=
   .list [.str w.file, Sexp.ofNat w.line, .str w.func, .atom (reprStr w.kind), .str w.target,
          .atom (reprStr w.prov)]
 
+open FV.C20.Obj in
+def parseVal (s : Sexp) : Option Val :=
+  match s with
+  | .list [.atom "arr", b, offs] => do some (.arr ⟨← b.asNat?, ← offs.asNats?⟩)
+  | .list [.atom "obj", o] => do some (.obj (← o.asNat?))
+  | .list [.atom "imm", n] => do some (.imm (← n.asInt?))
+  | _ => none
+
+open FV.C20.Obj in
+def valSexp : Val → Sexp
+  | .arr v => .list [.atom "arr", Sexp.ofNat v.base, Sexp.ofNats v.offs]
+  | .obj o => .list [.atom "obj", Sexp.ofNat o]
+  | .imm n => .list [.atom "imm", Sexp.ofInt n]
+
+open FV.C20.Obj in
+def parseSlot (s : Sexp) : Option (Nat × Val) :=
+  match s with
+  | .list [k, v] => do some (← k.asNat?, ← parseVal v)
+  | _ => none
+
+open FV.C20.Obj in
+def parseOInstr (s : Sexp) : Option OInstr :=
+  match s with
+  | .list [.atom "newarr", n, v] => do some (.newArr (← n.asNat?) (← v.asInt?))
+  | .list [.atom "newobj"] => some .newObj
+  | .list [.atom "copyobj", a] => do some (.copyObj (← a.asNat?))
+  | .list [.atom "alias", a] => do some (.alias (← a.asNat?))
+  | .list [.atom "load", a, k] => do some (.load (← a.asNat?) (← k.asNat?))
+  | .list [.atom "store", d, k, a] => do some (.store (← d.asNat?) (← k.asNat?) (← a.asNat?))
+  | .list [.atom "del", d, k] => do some (.del (← d.asNat?) (← k.asNat?))
+  | .list [.atom "setitem", d, k, v] => do some (.setItem (← d.asNat?) (← k.asNat?) (← v.asInt?))
+  | .list [.atom "const", n] => do some (.const (← n.asInt?))
+  | .list [.atom "augslot", d, k, a, g] => do some (.augSlot (← d.asNat?) (← k.asNat?) (← a.asNat?) ((← g.asNat?) != 0))
+  | _ => none
+
 /--
+  C20 orun (BUF…) (((K VAL)…)…) (VAL…) (OINSTR…)   object/container model (Model/C20/Obj.lean); answers
+        ok (arrs BUF…) (objs ((K VAL)…)…) (regs VAL…) (completed B) (static B)
   C20 run (BUF…) (VIEW…) (INSTR…)   run the program on heap/registers; answers
         ok (heap BUF…) (regs VIEW…) (completed B) (static B) (sitetags B…) (tags B…)
   C20 offending                      sites of the generated table not covered by a justification
@@ -58,6 +96,21 @@ def handle (args : List Sexp) : String :=
         .list [.atom "tags", boolsSexp tags]]
       "ok " ++ toString out
     | _, _, _ => "err bad-args"
+  | [.atom "orun", arrs, objs, regs, prog] =>
+    match arrs.asList?.bind (·.mapM Sexp.asInts?),
+          objs.asList?.bind (·.mapM (fun o => o.asList?.bind (·.mapM parseSlot))),
+          regs.asList?.bind (·.mapM parseVal), prog.asList?.bind (·.mapM parseOInstr) with
+    | some a, some o, some r, some p =>
+      let s : FV.C20.Obj.OState := ⟨a, o, r⟩
+      let s' := FV.C20.Obj.orunPartial p s
+      let out : Sexp := .list [
+        .list (.atom "arrs" :: s'.arrs.map Sexp.ofInts),
+        .list (.atom "objs" :: s'.objs.map (fun sl => Sexp.list (sl.map (fun kv => Sexp.list [Sexp.ofNat kv.1, valSexp kv.2])))),
+        .list (.atom "regs" :: s'.regs.map valSexp),
+        .list [.atom "completed", Sexp.ofBool (FV.C20.Obj.orun p s).isSome],
+        .list [.atom "static", Sexp.ofBool (FV.C20.Obj.ostaticOK p (FV.C20.Obj.oinitTags s))]]
+      "ok " ++ toString out
+    | _, _, _, _ => "err bad-args"
   | [.atom "offending"] => "ok " ++ toString (Sexp.list (offending.map siteSexp))
   | [.atom "nsites"] => "ok " ++ toString writeSites.length
   | _ => "err bad-request"
